@@ -10,6 +10,7 @@ import (
 	"path/filepath"
 	"sort"
 	"strings"
+	"time"
 
 	"github.com/taskctl/taskctl/internal/vh/common"
 	"github.com/taskctl/taskctl/internal/watch"
@@ -143,6 +144,14 @@ func runCase(root string, c pathCase) string {
 			}
 		}()
 		w, err := watch.NewWatcher("w", nil, c.Include, c.Exclude, task.FromCommands("true"))
+		for attempt := 0; err != nil && strings.Contains(err.Error(), "too many open files") && attempt < 8; attempt++ {
+			time.Sleep(time.Duration(300*(attempt+1)) * time.Millisecond)
+			w, err = watch.NewWatcher("w", nil, c.Include, c.Exclude, task.FromCommands("true"))
+		}
+		if err != nil && strings.Contains(err.Error(), "too many open files") {
+			fmt.Fprintln(os.Stderr, "resource exhaustion (inotify instances), not a verdict:", err)
+			os.Exit(2)
+		}
 		if err != nil {
 			panicked = "error: " + err.Error()
 			return
